@@ -537,6 +537,17 @@ impl<'a> ReMatcher<'a> {
     pub(crate) fn reset_state(&self, capture_state: CaptureState) {
         self.state.borrow_mut().capture_state = capture_state;
     }
+
+    pub(crate) fn backref_state(&self) -> (Vec<Option<usize>>, Vec<Option<usize>>) {
+        let state = self.state.borrow();
+        (state.start_backref.clone(), state.end_backref.clone())
+    }
+
+    pub(crate) fn reset_backref_state(&self, backrefs: (Vec<Option<usize>>, Vec<Option<usize>>)) {
+        let mut state = self.state.borrow_mut();
+        state.start_backref = backrefs.0;
+        state.end_backref = backrefs.1;
+    }
 }
 
 #[derive(Debug, Clone)]
